@@ -77,6 +77,7 @@ fn run(input: RunInput) -> ScenFuture {
         let cpu_bound = w.flag("cpu_bound_handlers", 0.3);
         let mut r_cpu = w.rng("wl:cpu-bound");
         let hanging = w.flag("listener_dials_hang_meanwhile", 0.4);
+        let stale_addresses = w.flag("high_entries_carry_a_stale_address", 0.3);
         let mut hanging_tasks = Vec::new();
         if hanging && r.gen_bool(0.5) {
             l.net.known_peers().insert(PeerInfo { peer_id: PeerId([0xEE; 32]), affinity: PeerAffinity::High, address: vec![addr(250).into()] });
@@ -239,8 +240,12 @@ fn run(input: RunInput) -> ScenFuture {
                             Affinity::Allowed => PeerAffinity::Allowed,
                             _ => PeerAffinity::Never,
                         };
-                        // (no address: affinity only; background dialing is exercised separately)
-                        l.net.known_peers().insert(PeerInfo { peer_id: d.peer_id, affinity: pa, address: vec![] });
+                        // (no address: affinity only; background dialing is exercised separately) - or,
+                        // in part of the runs, a High entry with a *stale* address where nobody
+                        // answers: the listener's own background dial of that peer is then pending
+                        // (or just failed) whenever the peer itself arrives, which changes nothing
+                        let address = if stale_addresses && a == Affinity::High { w.probe("high-entry-with-a-stale-address"); vec![addr(230 + k as u8).into()] } else { vec![] };
+                        l.net.known_peers().insert(PeerInfo { peer_id: d.peer_id, affinity: pa, address });
                         aff.insert(k, a);
                     }
                 }
